@@ -304,8 +304,13 @@ class FnTranslator:
                 if BITS[rt] < 64 or rt.startswith("i"):
                     b = "(.cast .%s .u64 %s)" % (rt, b) if rt.startswith("i") else b
                 return "(.bin .%s .%s %s %s)" % (BINOPS[op], t, self.expr(c[0], pre, cond_ctx), b)
+            n0 = len(pre)
             a = self.expr(c[0], pre, cond_ctx)
+            n1 = len(pre)
             b = self.expr(c[1], pre, cond_ctx)
+            if n1 > n0 and len(pre) > n1:
+                # C leaves the evaluation order of the two operands unspecified: hoisting would pick one
+                raise Unsupported("calls in both operands of an unsequenced operator")
             return "(.bin .%s .%s %s %s)" % (BINOPS[op], t, a, b)
         if k == "ConditionalOperator":
             cc = self.expr(c[0], pre, cond_ctx)
@@ -347,7 +352,14 @@ class FnTranslator:
             name = fn["referencedDecl"]["name"]
             if name in ("memcpy", "memset", "memmove", "strncpy", "strlen"):
                 raise Unsupported("%s used as a value" % name)
-            args = [self.expr(a, pre, cond_ctx) for a in c[1:]]
+            args = []
+            with_calls = 0
+            for a in c[1:]:
+                n0 = len(pre)
+                args.append(self.expr(a, pre, cond_ctx))
+                with_calls += 1 if len(pre) > n0 else 0
+            if with_calls > 1:
+                raise Unsupported("calls in more than one argument (unspecified evaluation order)")
             rt = self.u.ty(n["type"])
             tmp = self.new_slot("_call%d_%s" % (len(self.slot_names), name), rt)
             pre.append("(.call (some %d) \"%s\" [%s])" % (tmp, name, ", ".join(args)))
@@ -476,7 +488,14 @@ class FnTranslator:
             return self.seq(pre + ["(.fill %s %s %s)" % (d, v, k)])
         if name in ("memmove", "strncpy", "strlen", "strcpy", "printf", "assert"):
             raise Unsupported("call of " + name)
-        a = [self.expr_decay(x, pre) for x in args]
+        a = []
+        with_calls = 0
+        for x in args:
+            n0 = len(pre)
+            a.append(self.expr_decay(x, pre))
+            with_calls += 1 if len(pre) > n0 else 0
+        if with_calls > 1:
+            raise Unsupported("calls in more than one argument (unspecified evaluation order)")
         return self.seq(pre + ["(.call %s \"%s\" [%s])" % ("none" if dst is None else "(some %d)" % dst, name, ", ".join(a))])
 
     def assign(self, lhs, rhs_expr_str):
